@@ -487,8 +487,15 @@ def _ens_sorted(ctx, st, ret):
             ("ordered.by (chromosome, start, stop)", Forall(lambda i: Implies(And(in_range(i, st.m), i + 1 < st.m), key(c2, s2, e2, i, i + 1))))]
 
 
+def _from_intervals_model(ip, args, kwargs, lineno):
+    """GenomicIntervals.from_intervals(intervals, genome_context, is_stranded=False): wraps the table (contract of the constructor path)"""
+    a = [x for x in args if not isinstance(x, type)]
+    stranded = kwargs.get("is_stranded", a[2] if len(a) > 2 else False)
+    return SRec(_GI().GenomicIntervalsFull, _intervals=a[0], _genome_context=a[1], _is_stranded=stranded)
+
+
 gi_sorted = Contract("C10.GenomicIntervalsFull.sorted", target=lambda: _GI().GenomicIntervalsFull.sorted, setup=_setup_sorted, requires=lambda ctx, st: [st.m >= 0],
-                     ensures=_ens_sorted, callees=CALLEES,
+                     ensures=_ens_sorted, callees=dict(CALLEES, **{"bionumpy.genomic_data.genomic_intervals.GenomicIntervals.from_intervals": _from_intervals_model}),
                      canaries=[("strandedness dropped", "return self[args]", "return self.from_intervals(self._intervals[args], self._genome_context)"),
                                ("start is the primary key", "np.lexsort([self.stop, self.start, self.chromosome.raw()])", "np.lexsort([self.stop, self.chromosome.raw(), self.start])")])
 
